@@ -173,7 +173,7 @@ def who_rule(chk, prog, roles):
     for em in roles.emitters:
         if em == roles.driver:
             continue
-        callers = EFF.callers_of(g, em)
+        callers = [c for c in EFF.callers_of(g, em) if c != em]       # a retry written as a tail call is not another caller
         chk.require(callers == [roles.driver], "WHO", "WHO/callers/%s" % em, loc_str(prog.fn(em)),
                     "%s is called only from the per-line driver" % em, "callers %s" % callers)
 
